@@ -28,6 +28,19 @@ CHECKS = {
         technique='Coq proof (encoder = declarative layout; lengths by induction) + correspondence + strict reference parser as oracle',
         design_ref='DESIGN.md section 6, C02',
         note=COMMON_NOTE + ' The strict parser is an executable oracle (its own round trip is validated per run, not proved).'),
+    'C03': dict(
+        text=('Theorem C03_framing (Coq, no axioms): for EVERY list of segments of EVERY byte stream the frames the '
+              'provider\'s buffer discipline recognises, and the leftover, are those of the whole stream (induction on the '
+              'segment list over a prefix-monotonicity lemma for frame extraction), so no byte is lost, duplicated or '
+              'reordered whatever the segmentation. The provider-level claim (same indications / replies) is carried by '
+              'the C05 control theorems plus, per run, ~1500 executions of the REAL provider loop under a deterministic '
+              'scripted transport on every cut of every peer block of an 18-conversation corpus: model = implementation '
+              'step by step, and result = that of the one-PDU-per-segment delivery.'),
+        technique='Coq proof by induction over segment lists + model/implementation correspondence of the real event loop',
+        design_ref='DESIGN.md section 6, C03',
+        note=COMMON_NOTE + ' The scripted world (harness/world.py) stands in for kernel TCP, select, the clock, the user queue and '
+             'thread start: one script operation per loop iteration; it can deliver every segmentation and arrival order but not '
+             'preemption inside an iteration (there is one provider thread per association). Reset-while-sending (EPIPE) is not in the alphabet.'),
     'C04': dict(
         text=('Proof over the complete behaviour of the code: the real StateMachine is exercised on all 13 states x 19 '
               'events x both roles x every applicable primitive kind (702 cells) with a recording transport, queue and '
@@ -39,6 +52,23 @@ CHECKS = {
         design_ref='DESIGN.md section 6, C04',
         note=COMMON_NOTE + ' The recording provider/transport (harness/world.py) abstracts each effect (PDU type, abort source, '
              'identity with the triggering primitive); AA-4 accepts any abort source in the indication.'),
+    'C05': dict(
+        text=('Theorems C05_invariants / C05_step_outputs / C05_follows_table / C05_event_matches_primitive / '
+              'C05_concrete (Coq, no axioms): the control part of the provider loop (Model.Fsm.cstep: socket reader, event '
+              'queue, state machine, timer, fragment generator, reassembly result) is a finite-state machine over a finite '
+              'input classification; a set of 323 control states is shown by reflection to contain the initial states and '
+              'to be closed under every legal input, so for ALL histories of ANY length: the loop never dies, ARTIM runs iff '
+              'Sta2/Sta13, idle iff transport closed, P-DATA only in the data-transfer states, nothing indicated once the '
+              'association is over, every dispatched event handled exactly as the independently transcribed Table 9-10 '
+              'prescribes; the concrete model with buffers and PDU values projects onto it. Tie: the real loop under the '
+              'scripted world vs the model after EVERY iteration (state, socket, timer, buffer length, wire, indications) '
+              'on exhaustive histories to a depth + random walks, and the invariants evaluated on the implementation trace; '
+              'plus the exhaustive cell table of C04.'),
+        technique='Coq proof by reflection over a closed finite control abstraction lifted to all histories by induction + step-wise correspondence',
+        design_ref='DESIGN.md section 6, C05',
+        note=COMMON_NOTE + ' The scripted world (harness/world.py) stands in for kernel TCP, select, the clock, the user queue and '
+             'thread start: one script operation per loop iteration; it can deliver every segmentation and arrival order but not '
+             'preemption inside an iteration (there is one provider thread per association). Reset-while-sending (EPIPE) is not in the alphabet.'),
     'C06': dict(
         text=('Theorem C06_fragmentation (Coq, no axioms): for ALL command-set bytes, data-set bytes, context ids and '
               'every maximum PDU length m >= 7 (unbounded, 2^32-1 included) the model of chunks/fragment/'
@@ -50,6 +80,31 @@ CHECKS = {
         technique='Coq proof by induction over the chunk list + model/implementation correspondence by vm_compute',
         design_ref='DESIGN.md section 6, C06',
         note=COMMON_NOTE + ' Command-set bytes are taken from the implementation (pydicom) and are a parameter of the theorem.'),
+    'C12': dict(
+        text=('Theorems C12_never_crashes, C12_decode_total, C12_bad_pdu_aborted, C12_bad_pdata_aborted, C12_user_told, '
+              'C12_closed_after_peer_close, C12_own_pdus_wellformed (Coq, no axioms): in the control model the peer\'s bytes '
+              'are unconstrained inputs (any PDU kind in any state, undecodable frame, unusable P-DATA, close, reset); for all '
+              'histories the loop never dies, undecodable input is answered by A-ABORT (+ provider-abort indication), the '
+              'user is told, the peer\'s close brings the provider to rest in <= 2 iterations; decode is a total function. '
+              'Tie: ~2100 runs of the real loop per check in 8 protocol states on structure-aware mutations + random bytes, '
+              'model = implementation and the oracle (returned, at rest, told, wire well-formed) on the implementation.'),
+        technique='Coq proof by reflection over the closed control abstraction + total decoder model + malformed-stream correspondence',
+        design_ref='DESIGN.md section 6, C12',
+        note=COMMON_NOTE + ' The scripted world (harness/world.py) stands in for kernel TCP, select, the clock, the user queue and '
+             'thread start: one script operation per loop iteration; it can deliver every segmentation and arrival order but not '
+             'preemption inside an iteration (there is one provider thread per association). Reset-while-sending (EPIPE) is not in the alphabet.' + ' Partial: command sets that only pydicom\'s lenient reader decides are judged on the implementation alone (counted in the evidence).'),
+    'C13': dict(
+        text=('Theorems C13_peer_close, C13_artim_expiry, C13_artim_armed, C13_user_told, C13_stop_completes, C13_concrete '
+              '(Coq, no axioms): from EVERY reachable control state the peer\'s close reaches rest within two iterations, ARTIM '
+              'expiry in Sta2/Sta13 reaches rest in one, ARTIM is armed exactly in the states that wait on the peer alone, a stop '
+              'request is honoured at the next iteration head, and no iteration blocks. Tie: ~1000 runs of the real loop per '
+              'check: peer closing after every step / every byte prefix, stale local tear-down primitives, peer silence + ARTIM, '
+              'stop at every quiescent point; the world reports a blocking read as `blocked`.'),
+        technique='Coq proof by reflection over the closed control abstraction + correspondence of the real loop under fault/disconnect enumeration',
+        design_ref='DESIGN.md section 6, C13',
+        note=COMMON_NOTE + ' The scripted world (harness/world.py) stands in for kernel TCP, select, the clock, the user queue and '
+             'thread start: one script operation per loop iteration; it can deliver every segmentation and arrival order but not '
+             'preemption inside an iteration (there is one provider thread per association). Reset-while-sending (EPIPE) is not in the alphabet.' + ' Partial: thread join and real select() timing are outside the world.'),
     'C18': dict(
         text=('Proof over the complete behaviour of the code: statuses.Status is tabulated on all 65536 codes x '
               '24 classes from the working tree on every run; Coq checks every cell against the independent spec '
